@@ -86,6 +86,19 @@ Section Generic.
   Theorem c15_generic_result_reported i t rest :
     nth_error (wths s) i = Some t -> wcode t = WEnd :: rest -> wres (wstep s i) = (i, wfail t) :: wres s.
   Proof. exact (end_reports_failure s i t rest). Qed.
+  (* 5. The write lock is a token channel of capacity 1 (a release is the send `c.mu <- true`, which
+     blocks forever when the channel is full).  In a safe skeleton no thread ever blocks on a
+     release: whenever a thread's next instruction is the release, its step completes it -- it holds
+     the token and hands it back, or its path never took the token and there is no send; and the
+     unconditional release (one registered before the acquire) occurs in no safe code. *)
+  Theorem c15_generic_release_never_blocks i t rest :
+    nth_error (wths s) i = Some t -> wcode t = WRel :: rest ->
+    nth_error (wths (wstep s i)) i = Some {| wcode := rest; wfail := wfail t |}.
+  Proof. exact (release_never_blocks s i t rest reach). Qed.
+
+  Theorem c15_generic_no_unconditional_release i t rest :
+    nth_error (wths s) i = Some t -> wcode t <> WRelU :: rest.
+  Proof. exact (no_unconditional_release s i t rest reach). Qed.
 End Generic.
 
 (* THE CODE IN /repo.  The skeletons regenerated from websocket/conn.go satisfy the discipline, and
@@ -147,6 +160,63 @@ Proof.
   - now apply find_cex_sound.
 Qed.
 
+(* A RELEASE THAT IS NOT DOMINATED BY ITS ACQUIRE.  WriteControl with the deferred `c.mu <- true`
+   registered BEFORE the deadline-bounded acquire (skeleton early_release_skel, what the translator
+   produces for that source): the timeout return pushes a token it never took.  Rejected by the
+   predicate; the search computes the schedule  data writer takes the lock and performs the first
+   transport write of a two-write frame | a control write times out and pushes a token | a second
+   control write takes that token and writes INSIDE the frame | the data writer finishes its frame
+   and then blocks forever on its own release (the channel is full): the wire is not whole
+   frames, and thread 2 is stuck -- stepping it changes nothing. *)
+Theorem c15_release_without_acquire_refuted :
+  ws_safeb early_release_skel = false /\
+  exists sched, find_cex3 write_skel early_release_skel = Some sched /\
+    let s := wrun (cex3_state write_skel early_release_skel) sched in
+    wtc s = false /\ ~ frames_wire (rev (wwire s)) /\ rel_blocked s 2 = true /\ wstep s 2 = s.
+Proof.
+  split; [reflexivity|].
+  destruct (find_cex3 write_skel early_release_skel) as [sched|] eqn:E; [|vm_compute in E; discriminate].
+  exists sched. split; [reflexivity|]. cbv zeta.
+  destruct (find_cex3_sound _ _ _ E) as (H1 & H2).
+  split; [|split; [exact H1|split; [exact H2|now apply rel_blocked_stuck]]].
+  vm_compute in E. injection E as <-. vm_compute. reflexivity.
+Qed.
+
+(* with the safe control skeleton the same search finds nothing *)
+Example c15_release_search_safe : find_cex3 write_skel ctl_skel = None.
+Proof. vm_compute. reflexivity. Qed.
+
+(* THE MESSAGE PATH IS SINGLE-WRITER.  prepWrite closes whatever message is open on the connection
+   (`if c.writer != nil { c.writer.Close() }`); the model records in [wcut] that a message was closed
+   by ANOTHER thread's prepWrite, i.e. cut short.  If only one thread ever runs data messages --
+   the other threads are control senders, closers and the reader answering Pings through the
+   control path (what repo_structure_ok checks for the code in /repo) -- no open message is ever
+   cut, under every schedule. *)
+Theorem c15_generic_message_never_cut wsk csk d progs sched :
+  ws_safeb csk = true ->
+  (forall i ops, i <> d -> nth_error progs i = Some ops -> Forall control_only ops) ->
+  wcut (wrun (winit_ops wsk csk progs) sched) = false.
+Proof.
+  intros Hc H. unfold winit_ops. apply (single_writer_never_cut d). intros i c Hi Hn.
+  rewrite nth_error_map in Hn. destruct (nth_error progs i) as [ops|] eqn:E; [|discriminate].
+  injection Hn as <-. apply no_prep_prog; [exact Hc|]. eapply H; eauto.
+Qed.
+
+(* A DEFAULT PING HANDLER ON THE MESSAGE PATH (WriteMessage(PongMessage, ..) instead of WriteControl)
+   makes the READING goroutine a second message writer: its program is a data message consisting
+   of the pong frame.  The search over all interleavings of that reader and a data writer with a
+   two-frame message computes a schedule after which an open message has been cut; with the
+   handler on the control path the same search finds nothing. *)
+Theorem c15_handler_on_message_path_refuted :
+  exists sched, find_cex4 write_skel ctl_skel true = Some sched /\
+                wcut (wrun (cex4_state write_skel ctl_skel true) sched) = true.
+Proof.
+  destruct (find_cex4 write_skel ctl_skel true) as [sched|] eqn:E; [|vm_compute in E; discriminate].
+  exists sched. split; [reflexivity|]. now apply find_cex4_sound.
+Qed.
+Example c15_handler_on_control_path_safe : find_cex4 write_skel ctl_skel false = None.
+Proof. vm_compute. reflexivity. Qed.
+
 (* a skeleton that does not make a transport failure sticky, or tests the error before taking
    the lock, is rejected as well *)
 Example c15_predicate_rejects :
@@ -163,6 +233,11 @@ Print Assumptions c15_generic_close_last.
 Print Assumptions c15_generic_sticky.
 Print Assumptions c15_generic_later_writes_fail.
 Print Assumptions c15_generic_result_reported.
+Print Assumptions c15_generic_release_never_blocks.
+Print Assumptions c15_generic_no_unconditional_release.
+Print Assumptions c15_release_without_acquire_refuted.
+Print Assumptions c15_generic_message_never_cut.
+Print Assumptions c15_handler_on_message_path_refuted.
 Print Assumptions c15_repo_discipline.
 Print Assumptions c15_repo.
 Print Assumptions c15_unlocked_refuted.
